@@ -121,3 +121,40 @@ Qed.
 
 Lemma get_or_insert_a_fresh : forall s lvl ch, get_or_insert_a fresh_id s lvl ch = get_or_insert s lvl ch.
 Proof. reflexivity. Qed.
+
+(** ** Changing the handle list (histories of API calls): every kind *)
+
+Lemma wf_set_handles : forall s hs, WF s ->
+  (forall h, In h hs -> ref_ok s (eref (snd h)) /\ (s_kind s <> KBcdd -> etag (snd h) = false)) ->
+  WF (set_handles s hs).
+Proof.
+  intros s hs H Hh. constructor.
+  - exact (wf_perm_len s H).
+  - exact (wf_perm_v2l s H).
+  - exact (wf_perm_l2v s H).
+  - exact (wf_arity s H).
+  - exact (wf_stored s H).
+  - exact (wf_level s H).
+  - exact (wf_child s H).
+  - exact (wf_reduced s H).
+  - exact (wf_tags s H).
+  - exact (wf_unique s H).
+  - exact (wf_term_ids s H).
+  - exact (wf_term_vals s H).
+  - exact Hh.
+Qed.
+
+Lemma hdel_In_x : forall hs k h, In h (hdel hs k) -> In h hs.
+Proof. intros hs k h Hin. unfold hdel in Hin. apply filter_In in Hin. tauto. Qed.
+
+Lemma hget_In_x : forall hs k e, hget hs k = Some e -> In (k, e) hs.
+Proof.
+  induction hs as [|[a x] r IH]; intros k e E; simpl in E; [discriminate|].
+  destruct (N.eqb_spec a k) as [->|Hn]; [inversion E; subst; left; reflexivity | right; auto].
+Qed.
+
+Lemma extends_set_handles_l : forall s s' hs, extends s s' -> s_handles s = hs -> extends (set_handles s hs) s'.
+Proof.
+  intros s s' hs X Eh. constructor; try apply X.
+  - simpl. rewrite <- Eh. apply (ext_handles _ _ X).
+Qed.
